@@ -34,5 +34,11 @@ func verif_NewProxyConfigurerFromMsg(m *msg.NewProxy, serverCfg *v1.ServerConfig
 		if v, ok := c.(*v1.HTTPProxyConfig); ok && k >= 0 && k < len(v.CustomDomains) {
 			verif.Ensures(!validation.VerifInSubdomainSpace(v.CustomDomains[k], serverCfg.SubDomainHost), "http_domains_outside_subdomain_space")
 		}
+		if v, ok := c.(*v1.HTTPSProxyConfig); ok && k >= 0 && k < len(v.CustomDomains) {
+			verif.Ensures(!validation.VerifInSubdomainSpace(v.CustomDomains[k], serverCfg.SubDomainHost), "https_domains_outside_subdomain_space")
+		}
+		if v, ok := c.(*v1.TCPMuxProxyConfig); ok && k >= 0 && k < len(v.CustomDomains) {
+			verif.Ensures(!validation.VerifInSubdomainSpace(v.CustomDomains[k], serverCfg.SubDomainHost), "tcpmux_domains_outside_subdomain_space")
+		}
 	}
 }
